@@ -9,6 +9,48 @@ use serde::{
 
 use super::Call;
 
+/// A member name: borrowed from the input when possible, owned when it was written with escapes.
+enum Key<'de> {
+    Borrowed(&'de str),
+    Owned(alloc::string::String),
+}
+
+impl Key<'_> {
+    fn as_str(&self) -> &str {
+        match self {
+            Key::Borrowed(s) => s,
+            Key::Owned(s) => s,
+        }
+    }
+}
+
+impl<'de> Deserialize<'de> for Key<'de> {
+    fn deserialize<D>(deserializer: D) -> Result<Self, D::Error>
+    where
+        D: Deserializer<'de>,
+    {
+        struct KeyVisitor;
+
+        impl<'de> Visitor<'de> for KeyVisitor {
+            type Value = Key<'de>;
+
+            fn expecting(&self, f: &mut fmt::Formatter<'_>) -> fmt::Result {
+                f.write_str("a member name")
+            }
+
+            fn visit_borrowed_str<E>(self, v: &'de str) -> Result<Self::Value, E> {
+                Ok(Key::Borrowed(v))
+            }
+
+            fn visit_str<E>(self, v: &str) -> Result<Self::Value, E> {
+                Ok(Key::Owned(v.into()))
+            }
+        }
+
+        deserializer.deserialize_str(KeyVisitor)
+    }
+}
+
 impl<'de, M> Deserialize<'de> for Call<M>
 where
     M: Deserialize<'de>,
@@ -58,8 +100,8 @@ where
                     where
                         K: DeserializeSeed<'de>,
                     {
-                        while let Some(key) = self.inner.next_key::<&str>()? {
-                            match key {
+                        while let Some(key) = self.inner.next_key::<Key<'de>>()? {
+                            match key.as_str() {
                                 "oneway" => {
                                     let v = self.inner.next_value()?;
                                     self.oneway.set(Some(v));
